@@ -109,7 +109,10 @@ func (fr *Frame) streamBuiltin(st *State, key string, call *ast.CallExpr, sig *t
 		p := Select(pos, r)
 		garbage := Fresh("rd$garbage", e.sortOf(lt))
 		st.Assume(e.typeFacts(garbage, lt, st))
-		got := Ite(Eq(Select(Select(ws, r), p), IntLit(int64(wd))), Select(Select(vs, r), p), garbage)
+		// the decoded value is the item at the cursor when that item has this width (and fits the type: a decoder
+		// cannot produce anything else), otherwise arbitrary contents of the type
+		item := Select(Select(vs, r), p)
+		got := Ite(And(Eq(Select(Select(ws, r), p), IntLit(int64(wd))), e.typeFacts(item, lt, st)), item, garbage)
 		ok := Eq(err, IntLit(0))
 		e.store(st, loc, Ite(ok, got, e.load(st, loc)))
 		st.heap["ghost:strmPos"] = Ite(ok, Store(pos, r, Add(p, IntLit(1))), pos)
